@@ -158,7 +158,7 @@ theorem inv_step (ext : List Nat → Bool) (isReq : Bool) (lim0 : Int) (pre : Li
       rw [inv.seen]
       simp only [List.mem_map, List.mem_filter]
       exact ⟨g, ⟨hg, by rw [heq]; exact hps'⟩, heq⟩
-    refine ⟨hlimEq, fun _ => hlim, ?_, hvalues, ?_, ?_, ?_, ?_, ?_, ?_, ?_, ?_, ?_, ?_, ?_, ?_⟩
+    refine ⟨hlimEq, fun _ => hlim, ?_, hvalues, ?_, ?_, ?_, ?_, ?_, ?_, ?_, ?_, ?_, ?_, ?_, ?_, ?_⟩
     · intro g hg hnp
       rcases List.mem_append.mp hg with hg | hg
       · exact inv.names g hg hnp
@@ -206,6 +206,9 @@ theorem inv_step (ext : List Nat → Bool) (isReq : Bool) (lim0 : Int) (pre : Li
       rcases List.mem_append.mp hg with hg | hg
       · exact inv.clSome hr1 g hg hn
       · simp only [List.mem_singleton] at hg; subst hg; exact absurd hn (pseudo_not_cl _ hps')
+    · intro hr1
+      obtain ⟨g, hg, h1, h2⟩ := inv.clWitness hr1
+      exact ⟨g, List.mem_append_left _ hg, h1, h2⟩
     · intro n hn
       simp only []
       rw [getPseudo_setPseudo _ _ hknown]
@@ -262,7 +265,7 @@ theorem inv_step (ext : List Nat → Bool) (isReq : Bool) (lim0 : Int) (pre : Li
         rw [← heq, hps'] at this; cases this
     rcases hcl with ⟨hcl, hr0, rfl⟩ | ⟨hcl, hr1, hsame, rfl⟩ | ⟨hcl, rfl⟩
     · obtain ⟨h0, _⟩ := inv.clNone hr0
-      refine ⟨hlimEq, fun _ => hlim, hnames, hvalues, hnoconn, hteAll, hknown, hfirst, ?_, fun _ => hsome, ?_, hseenEq, inv.nodup, ?_, ?_,
+      refine ⟨hlimEq, fun _ => hlim, hnames, hvalues, hnoconn, hteAll, hknown, hfirst, ?_, fun _ => hsome, ?_, hseenEq, inv.nodup, ?_, ?_, ?_,
         hhdrv _ (fun _ => rfl)⟩
       · intro hc; cases hc
       · rw [hhdrs false (by simp [hcl])]; exact inv.headers
@@ -271,7 +274,8 @@ theorem inv_step (ext : List Nat → Bool) (isReq : Bool) (lim0 : Int) (pre : Li
         rcases List.mem_append.mp hg with hg | hg
         · exact absurd hn (h0 g hg)
         · simp only [List.mem_singleton] at hg; subst hg; rfl
-    · refine ⟨hlimEq, fun _ => hlim, hnames, hvalues, hnoconn, hteAll, hknown, hfirst, ?_, fun _ => hsome, ?_, hseenEq, inv.nodup, ?_, ?_,
+      · intro _; exact ⟨f, by simp, hcl, rfl⟩
+    · refine ⟨hlimEq, fun _ => hlim, hnames, hvalues, hnoconn, hteAll, hknown, hfirst, ?_, fun _ => hsome, ?_, hseenEq, inv.nodup, ?_, ?_, ?_,
         hhdrv _ (fun _ => rfl)⟩
       · intro hc; cases hc
       · rw [hhdrs false (by simp [hcl])]; exact inv.headers
@@ -280,7 +284,10 @@ theorem inv_step (ext : List Nat → Bool) (isReq : Bool) (lim0 : Int) (pre : Li
         rcases List.mem_append.mp hg with hg | hg
         · exact inv.clSome hr1 g hg hn
         · simp only [List.mem_singleton] at hg; subst hg; exact hsame.symm
-    · refine ⟨hlimEq, fun _ => hlim, hnames, hvalues, hnoconn, hteAll, hknown, hfirst, ?_, fun _ => hsome, ?_, hseenEq, inv.nodup, ?_, ?_,
+      · intro _
+        obtain ⟨g, hg, h1, h2⟩ := inv.clWitness hr1
+        exact ⟨g, List.mem_append_left _ hg, h1, h2⟩
+    · refine ⟨hlimEq, fun _ => hlim, hnames, hvalues, hnoconn, hteAll, hknown, hfirst, ?_, fun _ => hsome, ?_, hseenEq, inv.nodup, ?_, ?_, ?_,
         hhdrv _ (fun _ => by simp [getPseudo])⟩
       · intro hc; cases hc
       · rw [hhdrs true (by simp [hcl])]; simp only [if_true]; rw [← inv.headers]
@@ -295,6 +302,9 @@ theorem inv_step (ext : List Nat → Bool) (isReq : Bool) (lim0 : Int) (pre : Li
         rcases List.mem_append.mp hg with hg | hg
         · exact inv.clSome hr1 g hg hn
         · simp only [List.mem_singleton] at hg; subst hg; exact absurd hn hcl
+      · intro hr1
+        obtain ⟨g, hg, h1, h2⟩ := inv.clWitness hr1
+        exact ⟨g, List.mem_append_left _ hg, h1, h2⟩
 
 theorem inv_run (ext : List Nat → Bool) (isReq : Bool) (lim0 : Int) (fs : List Field) :
     ∀ (pre : List Field) (s s' : PS), Inv isReq lim0 pre s → runFields ext isReq s fs = .ok s' →
